@@ -173,4 +173,19 @@ def check_case(case):
         bad("allelic-sum", "cn1/cn2 reported without any BAF")
     if not cnarr.data.equals(before):
         bad("input-modified", "do_call changed its input array")
+    # ---- command-line tier (a quarter of the cases): `cnvkit.py call` on the written table = do_call on the same file
+    if gen.pick(case, "cli", 4) == 0 and not out:
+        import shutil
+        import tempfile
+
+        from vk import cli
+
+        d = tempfile.mkdtemp(prefix="vk02.")
+        try:
+            diff = cli.call_diff(cnarr, d, "threshold", ploidy, None, male_ref, None, None, None,
+                                 None if case["thresholds"] == "default" else thr)
+            if diff:
+                bad("cli:call", diff)
+        finally:
+            shutil.rmtree(d, ignore_errors=True)
     return out
